@@ -128,14 +128,15 @@ class LockedMachine(Machine):
     def __getstate__(self):
         state = {k: v for k, v in self.__dict__.items()}
         del state['model_context_map']
-        state['_model_context_map_store'] = {mod: self.model_context_map[id(mod)] for mod in self.models}
+        # a list of pairs (not a dict keyed by the models) since models do not have to be hashable
+        state['_model_context_map_store'] = [(mod, self.model_context_map[id(mod)]) for mod in self.models]
         return state
 
     def __setstate__(self, state):
         self.__dict__.update(state)
         self.model_context_map = defaultdict(list)
-        for model in self.models:
-            self.model_context_map[id(model)] = self._model_context_map_store[model]
+        for model, contexts in self._model_context_map_store:
+            self.model_context_map[id(model)] = contexts
         del self._model_context_map_store
 
     def add_model(self, model, initial=None, model_context=None):
